@@ -2,8 +2,8 @@
    pandora/filter/bilateral.py, median.py, median_for_intervals.py) IS the model of
    Model/Filters.v, per pixel, for all inputs. *)
 From Coq Require Import ZArith QArith Qround List Bool Lia Lqa.
-From Pandora Require Import Lib.Arr Lib.NpArr Lib.Blocks Lib.BlockSkeleton Model.Filters Model.FiltersNp
-                            Proofs.NpArrP Proofs.FiltersP Gen.FilterKernels.
+From Pandora Require Import Lib.Arr Lib.NpNd Lib.Blocks Lib.BlockSkeleton Model.Filters Model.FiltersNp
+                            Proofs.NpNdP Proofs.FiltersP Gen.FilterKernels.
 From Pandora Require Proofs.SkelFiltersP.
 Import ListNotations.
 Open Scope Z_scope.
